@@ -42,24 +42,6 @@ Definition tti_blocks (file : list Z) : list tti :=
   map unpack_tti (filter (fun c => Nat.eqb (length c) 128) (chunks (S (length file)) (skipn 1024 file))).
 Definition text_block (t : tti) : bool := negb ((239 <? t_ebn t) && (t_ebn t <? 255)).
 
-(* tcp-attribute-error: program_start_tc = "TCP" and a TCP field that int() rejects *)
-Definition trigger_tcp (file : list Z) (cfg : config) : bool :=
-  match cf_start cfg with
-  | StTCP => let tcp := g_tcp (gsi_of file) in
-             match py_int (slice 0 2 tcp), py_int (slice 2 2 tcp), py_int (slice 4 2 tcp), py_int (slice 6 2 tcp) with
-             | Some _, Some _, Some _, Some _ => false
-             | _, _, _, _ => true
-             end
-  | _ => false
-  end.
-
-(* mnr-sets-start-offset: max_row_count = "MNR", open subtitles, and an MNR field that int() rejects *)
-Definition trigger_mnr (file : list Z) (cfg : config) : bool :=
-  match cf_rows cfg with
-  | MrMNR => negb (teletext_of file) && match py_int (g_mnr (gsi_of file)) with None => true | Some _ => false end
-  | _ => false
-  end.
-
 (* tnb-zero-division: TNB reads as 0 and there is at least one TTI block *)
 Definition trigger_tnb (file : list Z) : bool :=
   match py_int (g_tnb (gsi_of file)) with Some 0 => negb (Nat.leb (length file) 1024) | _ => false end.
@@ -108,7 +90,7 @@ Fixpoint scan (fuel : nat) (pred : state -> tti -> list Z -> bool -> bool) (f : 
           if negb (Nat.eqb (length buf) 128) then false else
           let t := unpack_tti buf in
           (text_block t && let '(tf, live) := block_view f s t in pred s t tf live) ||
-          match process_tti true f s t with
+          match process_tti f s t with
           | inl s' => if f_tti_count f =? 0 then false else scan k pred f s' (skipn 128 bs)
           | inr _ => false
           end
@@ -126,11 +108,6 @@ Definition trigger_cumulative_first : list Z -> config -> bool :=
   scan_file (fun s t _ live => live && negb ((t_cs t =? 0) || (t_cs t =? 1)) &&
                                match st_cur s with None => true | Some _ => false end).
 
-(* sn-identity: a block that would open a paragraph repeats the subtitle number of the last one, above 256 *)
-Definition trigger_sn_identity : list Z -> config -> bool :=
-  scan_file (fun s t _ live => live && ((t_cs t =? 0) || (t_cs t =? 1)) && (256 <? t_sn t) &&
-                               match st_last_sn s with Some l => l =? t_sn t | None => false end).
-
 Definition trigger_blank_row_file : list Z -> config -> bool :=
   scan_file (fun _ t tf live => live && trigger_blank_row tf).
 
@@ -138,11 +115,9 @@ Definition trigger_blank_row_file : list Z -> config -> bool :=
 Definition trigger_vp_zero : list Z -> config -> bool :=
   scan_file (fun _ t _ live => live && ((t_cs t =? 0) || (t_cs t =? 1)) && (t_vp t =? 0)).
 
-(* all of them, as a bit mask (bit i = i-th finding of findings_proposed/C09.txt) *)
+(* all of them, as a bit mask (bit i = i-th entry of FINDINGS in harness/c09.py) *)
 Definition trigger_mask (file : list Z) (cfg : config) : Z :=
-  (if trigger_tcp file cfg then 1 else 0) + (if trigger_mnr file cfg then 2 else 0) +
-  (if trigger_cumulative_first file cfg then 4 else 0) + (if trigger_sn_identity file cfg then 8 else 0) +
-  (if trigger_strip_file file then 16 else 0) + (if trigger_23976 file cfg then 32 else 0) +
-  (if trigger_a4_file file then 64 else 0) + (if trigger_comment file then 128 else 0) +
-  (if trigger_blank_row_file file cfg then 256 else 0) + (if trigger_vp_zero file cfg then 512 else 0) +
-  (if trigger_tnb file then 1024 else 0).
+  (if trigger_cumulative_first file cfg then 1 else 0) + (if trigger_strip_file file then 2 else 0) +
+  (if trigger_23976 file cfg then 4 else 0) + (if trigger_a4_file file then 8 else 0) +
+  (if trigger_comment file then 16 else 0) + (if trigger_blank_row_file file cfg then 32 else 0) +
+  (if trigger_vp_zero file cfg then 64 else 0) + (if trigger_tnb file then 128 else 0).
